@@ -41,6 +41,16 @@ REGRESS = [
         {"a": "MarkAdd", "name": "mark/m", "ids": [-1]}, {"a": "MarkDel", "name": "mark/m", "ids": [-1]},
         {"a": "MarkDel", "name": "mark/m", "ids": [-1, 0]}, {"a": "MarkAdd", "name": "mark/m", "ids": [-1, 0]},
         {"a": "MarkAdd", "name": "mark/m", "ids": [1]}]},
+    # "<ff>" stands for the byte 0xff: names, colours and URLs that are no valid UTF-8 cannot be stored (the state file is JSON):
+    # they have to be rejected, or the tag comes back under another name after a restart
+    {"id": "a-text-that-is-not-utf8", "steps": [
+        {"a": "ApiImport", "k": 1},
+        {"a": "AddTag", "name": "tag/bad<ff>", "def": {"k": "P", "n": 80, "s": [], "t": ""}, "color": "#111111"},
+        {"a": "AddTag", "name": "tag/good", "def": {"k": "P", "n": 80, "s": [], "t": ""}, "color": "#11<ff>"},
+        {"a": "AddTag", "name": "tag/good", "def": {"k": "P", "n": 80, "s": [], "t": ""}, "color": "#111111"},
+        {"a": "UpdName", "name": "tag/good", "new": "tag/worse<ff>"},
+        {"a": "UpdColor", "name": "tag/good", "color": "<ff>"},
+        {"a": "AddHook", "what": "http://127.0.0.1:9/<ff>"}]},
 ]
 
 
